@@ -116,6 +116,7 @@ type Encoder struct {
 	ordLog     map[string][]ssa.Instruction
 	ordSeed    map[string][]ssa.Instruction
 	loopMapKeys map[string]string
+	stable      map[*ssa.Alloc]bool
 }
 
 type loopInfo struct {
@@ -149,7 +150,7 @@ func (e *Encoder) fnName() string { return qualName(e.fn) }
 // qualName: package name, or the package path inside the repository when the name alone is
 // ambiguous (pkg/kmsg/internal/kbin is a copy of pkg/kbin).
 func qualName(fn *ssa.Function) string {
-	p := fn.Pkg.Pkg
+	p := fnTypesPkg(fn)
 	name := p.Name()
 	if strings.Contains(p.Path(), "/internal/") {
 		name = strings.TrimPrefix(p.Path(), "github.com/twmb/franz-go/")
@@ -423,7 +424,9 @@ func (e *Encoder) store(st *State, loc string, t types.Type, v string) {
 	st.mem[akey] = c.define("M_"+akey, asort, fmt.Sprintf("(ite %s (store %s (ebase %s) (store (select %s (ebase %s)) (eidx %s) %s)) %s)", isel, acur, loc, acur, loc, loc, v, acur))
 }
 
-func (e *Encoder) havocAll(st *State, why string) {
+func (e *Encoder) havocAll(st *State, why string) { e.havocKeeping(st, why, nil) }
+
+func (e *Encoder) havocRaw(st *State, why string) {
 	e.havoc(why)
 	st.mem = map[string]string{}
 	st.epoch = e.c.fresh("e")
@@ -625,6 +628,14 @@ func (e *Encoder) memKeysWritten(blocks map[*ssa.BasicBlock]bool, skip map[ssa.I
 			case *ssa.MapUpdate:
 				if !noteMap(in.Map.Type()) {
 					all = true
+				}
+			case *ssa.Next:
+				// a range over a map advances its ghost visited set
+				if rg, ok := in.Iter.(*ssa.Range); ok && !in.IsString {
+					if mt, ok := rg.X.Type().Underlying().(*types.Map); ok {
+						vk, _, srt := rangeGhostKeys(rg, e.c.sortOf(mt.Key()))
+						e.loopMapKeys[vk] = srt
+					}
 				}
 			case *ssa.Call:
 				cm := in.Common()
